@@ -12,7 +12,7 @@ SPEC = {
     "rule": "case = one fork offer; distinct_nontrivial = distinct (length class, tip cert shape, inner cert shape, content class, long/short) tuples",
     "jobs": [Job("forks", "verifsim", "^TestVerifC08$", shards=(8, 16), timeout=(900, 3600))],
     "floors": {"fork_offers": (100, 1500), "adopted": (15, 200), "refused": (30, 400), "tip-cert:nil": 5, "tip-cert:empty": 8, "tip-cert:under-quorum": 3,
-               "tip-cert:forged": 5, "tip-cert:wrong-round": 3, "tip-cert:valid": 30, "content:identity-update": 10, "content:tampered-tip": 5,
+               "tip-cert:forged": 5, "tip-cert:wrong-round": 3, "tip-cert:valid": 30, "tip-cert:duplicated-votes": 5, "adopted:shorter": 8, "content:identity-update": 10, "content:tampered-tip": 5,
                "len:shorter": 10, "len:equal": 10, "len:longer": 20},
     "parallel": 16,
     "assumptions": ["consensus config V12"],
